@@ -1,6 +1,6 @@
 (* C01 - Context teardown runs every callback exactly once, LIFO, one at a time. *)
 From Coq Require Import List Bool Arith Permutation.
-From Asphalt Require Import Td.TdModel Td.TdProofs Td.Lifecycle Gen.Gen_lifecycle.
+From Asphalt Require Import Td.TdModel Td.TdProofs Td.Lifecycle Gen.Gen_lifecycle Ctx.CtxBaseTie Gen.Gen_ctxbase.
 Import ListNotations.
 
 (* For every forest of callbacks (any number, any depth of callbacks registered during teardown),
@@ -88,3 +88,12 @@ Theorem C01_source_shape :
   td_group_is_base_group = true /\ td_cause_is_exit_exception = true.
 Proof. exact lifecycle_shape. Qed.
 Print Assumptions C01_source_shape.
+
+(* @context_teardown as read from the source on this run: every CALL of the decorated function has its own generator
+   and its own callback; the second half is registered (with pass_exception) only when the first half has reached
+   its yield; the callback sends the exit exception in and always closes the generator *)
+Theorem C01_context_teardown_in_source :
+  ctxtd_state_per_call = true /\ ctxtd_registered_after_first_half_with_pass_exception = true /\
+  ctxtd_generator_always_closed = true.
+Proof. exact context_teardown_source_shape. Qed.
+Print Assumptions C01_context_teardown_in_source.
